@@ -19,6 +19,7 @@ int main(int argc, char** argv) {
         auto mass = C["mass"].dvec();
         const double dt = 1.0 / C["dtinv"].d(), damp = C["damp"].d();
         const long hi = C["hi"].i();
+        const bool frag = C.has("frag") && C["frag"].boolean();    // cells with a history: unused slots before live nodes / faces
         global_simulation_parameters gp;
         gp.time_step_ = dt; gp.damping_coefficient_ = damp;
         time_integration_scheme ti(gp, false);
@@ -40,10 +41,12 @@ int main(int argc, char** argv) {
             c->initialize_cell_properties(true);
             ct->mass_density_ = mass[sc - 1] * (double)c->get_nb_of_nodes() / c->get_volume();    // node mass = mass[sc]
             c->set_local_id(li);
+            if (frag) cell_tester::fragment(*c, 2, true);      // node 1 now lives in the last slot, slot 0 is unused; face slots 0, 1 unused
             cell_of[sc] = c;
             L.push_back(c);
         }
-        auto nd = [&](int sc, int n) -> node& { return cell_tester::nodes(*cell_of[sc])[n - 1]; };
+        auto slot = [&](int sc, int n) -> size_t { return (frag && n == 1) ? cell_tester::nodes(*cell_of[sc]).size() - 1 : (size_t)(n - 1); };
+        auto nd = [&](int sc, int n) -> node& { return cell_tester::nodes(*cell_of[sc])[slot(sc, n)]; };
         std::vector<vec3> base;     // initial positions of all 8 nodes
         for (int sc = 1; sc <= 2; sc++) for (auto& n : cell_tester::nodes(*cell_of[sc])) base.push_back(n.pos());
         auto vec = [&](double s) { return vec3(s * UNIT, 2. * s * UNIT, -s * UNIT); };
@@ -66,11 +69,11 @@ int main(int argc, char** argv) {
             // couplings are (re)created by the contact phase before every step
             if (C["coupled"].boolean()) {
 #if CONTACT_MODEL_INDEX == 1
-                nd(1, 1).set_coupled_node_and_min_distance(std::make_pair(cell_of[2]->get_local_id(), 0u), 1e-12);
-                nd(2, 1).set_coupled_node_and_min_distance(std::make_pair(cell_of[1]->get_local_id(), 0u), 1e-12);
+                nd(1, 1).set_coupled_node_and_min_distance(std::make_pair(cell_of[2]->get_local_id(), (unsigned)slot(2, 1)), 1e-12);
+                nd(2, 1).set_coupled_node_and_min_distance(std::make_pair(cell_of[1]->get_local_id(), (unsigned)slot(1, 1)), 1e-12);
 #elif CONTACT_MODEL_INDEX == 2
-                nd(1, 1).set_coupled_node_and_min_distance(cell_of[2]->get_local_id(), 0u, 1e-12);
-                nd(2, 1).set_coupled_node_and_min_distance(cell_of[1]->get_local_id(), 0u, 1e-12);
+                nd(1, 1).set_coupled_node_and_min_distance(cell_of[2]->get_local_id(), (unsigned)slot(2, 1), 1e-12);
+                nd(2, 1).set_coupled_node_and_min_distance(cell_of[1]->get_local_id(), (unsigned)slot(1, 1), 1e-12);
 #endif
             }
             const double t0 = ti.get_simulation_time();
@@ -80,23 +83,31 @@ int main(int argc, char** argv) {
             o.key("nodes").arr();
             size_t bi = 0;
             double others_moved = 0, others_force = 0;
+            std::vector<size_t> base_of(3, 0);
+            base_of[1] = 0; base_of[2] = cell_tester::nodes(*cell_of[1]).size();
+            for (int q = 0; q < 4; q++) {
+                const int sc = ids[q][0];
+                const size_t j = slot(sc, ids[q][1]);
+                node& nj = cell_tester::nodes(*cell_of[sc])[j];
+                const vec3 dp = nj.pos() - base[base_of[sc] + j];
+                o.obj();
+                o.key("dpos").arr().d(dp.dx() / UNIT).d(dp.dy() / UNIT).d(dp.dz() / UNIT).end_arr();
+#if DYNAMIC_MODEL_INDEX == 0
+                const vec3 mo = nj.momentum();
+#else
+                const vec3 mo;
+#endif
+                o.key("mom").arr().d(mo.dx() / UNIT).d(mo.dy() / UNIT).d(mo.dz() / UNIT).end_arr();
+                const vec3 fr = nj.force();
+                o.key("force").arr().d(fr.dx() / UNIT).d(fr.dy() / UNIT).d(fr.dz() / UNIT).end_arr();
+                o.end_obj();
+            }
             for (int sc = 1; sc <= 2; sc++) {
                 auto& NN = cell_tester::nodes(*cell_of[sc]);
                 for (size_t j = 0; j < NN.size(); j++, bi++) {
+                    if (j == slot(sc, 1) || j == slot(sc, 2)) continue;
                     const vec3 dp = NN[j].pos() - base[bi];
-                    if (j < 2) {
-                        o.obj();
-                        o.key("dpos").arr().d(dp.dx() / UNIT).d(dp.dy() / UNIT).d(dp.dz() / UNIT).end_arr();
-#if DYNAMIC_MODEL_INDEX == 0
-                        const vec3 mo = NN[j].momentum();
-#else
-                        const vec3 mo;
-#endif
-                        o.key("mom").arr().d(mo.dx() / UNIT).d(mo.dy() / UNIT).d(mo.dz() / UNIT).end_arr();
-                        const vec3 fr = NN[j].force();
-                        o.key("force").arr().d(fr.dx() / UNIT).d(fr.dy() / UNIT).d(fr.dz() / UNIT).end_arr();
-                        o.end_obj();
-                    } else { others_moved = std::max(others_moved, dp.norm() / UNIT); others_force = std::max(others_force, NN[j].force().norm() / UNIT); }
+                    others_moved = std::max(others_moved, dp.norm() / UNIT); others_force = std::max(others_force, NN[j].force().norm() / UNIT);
                 }
             }
             o.end_arr();
